@@ -151,7 +151,7 @@ class Ctx:
         mc, cfg = tlc.write_mc(module, self.scratch, tag, spec=spec, constants=constants, invariants=invariants,
                                view=view, constraints=constraints)
         dot = self.scratch / f"{module}{tag}-graph"
-        timeout = timeout or (240 if self.quick else 1500)
+        timeout = timeout or (900 if self.quick else 3600)
         w = workers or (1 if dump else self.workers)
         r = tlc.run(mc, cfg, self.scratch, workers=w, timeout=timeout, dump=dot if dump else None, coverage=True,
                     libs=[SPEC / self.check.SPEC_DIR])
